@@ -19,7 +19,8 @@ MOD = "algorithms.isomorphism"
 FULL_GRAPH_FUNCS = ("_sanity_check_and_init", "vf2pp_all_isomorphisms",
                     "_graph_feasibility", "_stereo_feasibility",
                     "_stereo_change_feasibility", "_matching_order",
-                    "_find_candidates", "_update_state", "_revert_state")
+                    "_find_candidates", "_update_state", "_revert_state",
+                    "_bond_change_feasibility")
 
 # kinds ---------------------------------------------------------------------
 # ("atom", s) ("set", s) ("map", key_side|None, value_kind) ("stereo", s)
@@ -51,6 +52,9 @@ def field_kind(name: str):
     if m:
         s = int(m.group(1))
         return ("map", s, ("map", None, ("stereos", s)))
+    m = re.fullmatch(r"g([12])_bond_changes", name)
+    if m:
+        return ("bondmap", int(m.group(1)))
     if name == "mapping":
         return ("map", 1, ("atom", 2))
     if name == "inverted_mapping":
@@ -99,7 +103,8 @@ class SideKinds:
         # positional roles of the (u, v, state, params) protocol
         if name in ("_graph_feasibility", "_stereo_feasibility",
                     "_stereo_change_feasibility", "_update_state",
-                    "_revert_state") and len(params) >= 2:
+                    "_revert_state", "_bond_change_feasibility") and len(
+                    params) >= 2:
             self.env[params[0]] = ("atom", 1)
             self.env[params[1]] = ("atom", 2)
         elif name in ("_find_candidates",) and params:
@@ -381,6 +386,27 @@ def check_side(prog: Program, res: Result) -> None:
             ck = sk.kind_in(container, env)
             kk = sk.kind_in(key, env)
             if not isinstance(ck, tuple):
+                return
+            if ck[0] == "bondmap":
+                # key must be frozenset((a, b)) / Bond((a, b)) of this side
+                n_sites += 1
+                inst = f"{fi.short}: {norm(node, 70)}"
+                members = []
+                if isinstance(key, ast.Call) and call_name(key) in (
+                        "frozenset", "Bond") and len(key.args) == 1 and \
+                        isinstance(key.args[0], (ast.Tuple, ast.Set, ast.List)):
+                    members = key.args[0].elts
+                sides = [sk.kind_in(m, env) for m in members]
+                wrong = [norm(m) for m, k2 in zip(members, sides)
+                         if isinstance(k2, tuple) and k2[0] == "atom"
+                         and k2[1] != ck[1]]
+                if wrong:
+                    res.bad("R-SIDE", f"{fi.short}: {norm(node, 90)}",
+                            fi.loc(node), f"{fi.short}: bond table of graph "
+                            f"{ck[1]} looked up with {wrong} of the other "
+                            f"graph in `{norm(node, 90)}`", instance=inst)
+                else:
+                    res.ok("R-SIDE", inst, fi.loc(node))
                 return
             want = None
             if ck[0] == "map":
@@ -978,7 +1004,8 @@ def check_feasibility(prog: Program, res: Result) -> None:
             reg[norm(node.args[0])] = conds
     want = {"_graph_feasibility": set(),
             "_stereo_feasibility": {("stereo", "T")},
-            "_stereo_change_feasibility": {("stereo_change", "T")}}
+            "_stereo_change_feasibility": {("stereo_change", "T")},
+            "_bond_change_feasibility": {("bond_change", "T")}}
     for fn, extra in want.items():
         conds = reg.get(fn)
         inst = f"vf2pp_all_isomorphisms registers {fn}"
@@ -987,7 +1014,8 @@ def check_feasibility(prog: Program, res: Result) -> None:
                     f"{fn} is never registered as a feasibility predicate",
                     instance=inst)
             continue
-        cs = {c for c in conds if c[0] in ("stereo", "stereo_change")}
+        cs = {c for c in conds if c[0] in ("stereo", "stereo_change",
+                                            "bond_change")}
         full = any(c in (("subgraph", "F"), ("not subgraph", "T"))
                    for c in conds)
         if cs == extra and full:
